@@ -173,6 +173,16 @@ func workload(seconds int, probesOut string) error {
 			}
 			if err := a.StoreProvisioner(ctx, lp); err == nil {
 				addProbe(probe{"provisioner-stored", cls(sign("a.allowed.test", jwk, name)), "issued"})
+				// update it in place (claims change): readers of the listing run concurrently
+				dis := true
+				lp.Claims = &linkedca.Claims{DisableRenewal: dis}
+				if err := a.UpdateProvisioner(ctx, lp); err == nil {
+					if p, err := a.LoadProvisionerByName(name); err != nil || p == nil {
+						addProbe(probe{"provisioner-updated", "absent", "present"})
+					} else {
+						addProbe(probe{"provisioner-updated", "present", "present"})
+					}
+				}
 				// an ordinary administrator on that provisioner
 				na := &linkedca.Admin{ProvisionerId: lp.Id, Subject: "ops", Type: linkedca.Admin_ADMIN}
 				if err := a.StoreAdmin(ctx, na, mustProv(a, lp.Id)); err == nil {
